@@ -4,6 +4,14 @@ import json, os
 V = os.path.dirname(os.path.dirname(os.path.abspath(__file__)))
 
 CHECKS = {
+ "C16": dict(
+    technique="runtime oracles: own unit-algebra table per NumPy function + re-expression metamorphic relation + numpy on root magnitudes; input fingerprints; error and offset clauses",
+    text="All 217 reachable names of HANDLED_FUNCTIONS / HANDLED_UFUNCS / wrapped ndarray methods (559 call variants: axis, keepdims, where, initial, ddof, out, atol, prepend/append ...) are "
+         "called on random arrays of ranks 0-3 in three registry configurations; each abstract call is realised twice in different compatible units and both results must be physically "
+         "equal, equal NumPy applied to root magnitudes, and carry the unit implied by an independently written table; inputs are fingerprinted; one argument moved to another dimension "
+         "or made bare must raise DimensionalityError; offset units must be refused or agree with the kelvin run.",
+    note="own unit-factor table verified against the registry at shard start; twelve recorded finding families (N1-N12); integer/complex dtypes, masked/dask arrays out of reach",
+    ref="4/C16"),
  "C19": dict(
     technique="runtime oracles: reference-model slopes and own first-order propagation vs real Measurement conversions/arithmetic; independent readers of the +/- notations and of every measurement format",
     text="12 constructor forms over 40 decades; every ordered compatible pair of canonical multiplicative units (7775, complete) plus temperature and log units through to()/ito(): nominal "
